@@ -16,6 +16,7 @@ pub use for_range_stat::infer_for_range_iter_expr_func;
 pub use func_body::{LuaReturnPoint, analyze_func_body_returns_with};
 use metatable::analyze_setmetatable;
 use module::analyze_chunk_return;
+pub(in crate::compilation::analyzer) use module::get_module_semantic_id;
 use stats::{
     analyze_assign_stat, analyze_func_stat, analyze_local_func_stat, analyze_local_stat,
     analyze_table_field,
